@@ -1,7 +1,34 @@
-(* Development target for the shared model of the asynchronous core (not a property). *)
-From NR Require Import Lib.Base Lib.Nip01 Live.Model Live.Proofs RELAY.Model.
-Theorem live_filter_characterised : forall f e,
+(* Development target for the shared model of the asynchronous core; the per-property files
+   C05 / C13 / C19 restate its theorems by hand; C06(a) is picked up from here by tools/gen_props.py. *)
+From NR Require Import Lib.Base Lib.PyRt Lib.Nip01 Gen.Web Filt.Model Live.Model Live.Proofs RELAY.Model RELAY.Proofs RELAY.Eose.
+Open Scope Z_scope.
+
+(* C06(a): whatever the storage answers - accepted, duplicate, refused by a validator or by the role
+   check, or an unexpected exception - an EVENT message is answered by exactly one OK frame and the
+   connection stays open *)
+Theorem C06_relay_one_ok_per_event : forall cfg st c x m rows prep cq add auth st' x' d,
+  validate_message m = true -> as_str (jv_nth 0 m) = pys "EVENT" -> c_open x = true ->
+  handle_msg cfg st c x m false rows prep cq add auth = (st', x', d) ->
+  d = DContinue /\ exists f, c_out x' = f :: c_out x /\ is_ok f = true.
+Proof. exact event_one_ok. Qed.
+Print Assumptions C06_relay_one_ok_per_event.
+
+(* a rate-limited EVENT is answered by one OK false as well (whatever its payload looks like, as far as modelled) *)
+Theorem C06_relay_limited_event_one_ok : forall cfg st c x m rows prep cq add auth st' x' d,
+  validate_message m = true -> as_str (jv_nth 0 m) = pys "EVENT" -> c_open x = true ->
+  handle_msg cfg st c x m true rows prep cq add auth = (st', x', d) ->
+  d = DUnmodelled \/ (d = DContinue /\ exists f, c_out x' = f :: c_out x /\ is_ok f = true).
+Proof.
+  intros cfg st c x m rows prep cq add auth st' x' d Hv Hc Ho. unfold handle_msg. rewrite Hv, Hc. simpl.
+  destruct (jv_nth 1 m); try (intros E; inversion E; subst; right; split; [reflexivity|];
+    eexists; split; [simpl; rewrite emit_out_open by assumption; reflexivity | reflexivity]).
+  destruct (jget (pys "id") kv) as [[]|]; intros E; inversion E; subst; try (left; reflexivity);
+    right; (split; [reflexivity|]); eexists; (split; [simpl; rewrite emit_out_open by assumption; reflexivity | reflexivity]).
+Qed.
+Print Assumptions C06_relay_limited_event_one_ok.
+
+Theorem RELAY_live_filter_characterised : forall f e,
   live_filter f e = has_cond f && core_match f e
                     && after_closed (w_created e) (f_since f) && before_open (w_created e) (f_until f).
 Proof. exact live_filter_spec. Qed.
-Print Assumptions live_filter_characterised.
+Print Assumptions RELAY_live_filter_characterised.
